@@ -272,6 +272,9 @@ func (g *G) IPv6Frag() Proto {
 func (g *G) IPv6Routing() Proto {
 	h := protocol.NewRoutingHeader()
 	hel := g.Int("rt_hel", 0, 20)
+	if g.Chance("rt_hel_boundary", 1, 4) {
+		hel = []int{31, 127, 128, 254, 255}[g.Pick("rt_hel_b", 5)] // header-extension length is a byte: sizes up to 2048
+	}
 	h.NextHeader, h.HEL, h.RoutingType, h.SegmentsLeft = g.U8("rt_nh"), uint8(hel), g.U8("rt_type"), g.U8("rt_segs")
 	rd := g.Bytes("rt_data", 8*(hel+1)-4)
 	h.Data = util.NewBuffer(cp(rd))
@@ -281,18 +284,39 @@ func (g *G) IPv6Routing() Proto {
 func (g *G) IPv6HBH() Proto {
 	h := protocol.NewHopByHopHeader()
 	hel := g.Int("hbh_hel", 0, 12)
+	if g.Chance("hbh_hel_boundary", 1, 4) {
+		hel = []int{31, 127, 128, 254, 255}[g.Pick("hbh_hel_b", 5)]
+	}
 	h.NextHeader, h.HEL = g.U8("hbh_nh"), uint8(hel)
 	remain := 8*(hel+1) - 2
 	w := []byte{h.NextHeader, h.HEL}
 	for remain > 0 {
-		ol := g.Int("hbh_optlen", 0, remain-2)
+		mx := remain - 2
+		if mx > 255 {
+			mx = 255
+		}
+		ol := g.Int("hbh_optlen", 0, mx)
+		if g.Chance("hbh_optlen_max", 1, 6) {
+			ol = mx // option lengths up to 255 (254/255 are where 8-bit size arithmetic wraps)
+		}
 		if remain-2-ol == 1 {
-			ol++
+			if ol < 255 {
+				ol++
+			} else {
+				ol--
+			}
 		}
 		ot := g.U8("hbh_opttype")
-		od := g.Bytes("hbh_optdata", ol)
-		h.Options = append(h.Options, &protocol.Option{Type: ot, Length: uint8(ol), Data: cp(od)})
-		w = append(append(w, ot, uint8(ol)), od...)
+		if g.Chance("hbh_padn_shorthand", 1, 5) {
+			// PadN written the short way: Length says how many zero bytes follow, Data is left nil
+			h.Options = append(h.Options, &protocol.Option{Type: 1, Length: uint8(ol)})
+			w = append(append(w, 1, uint8(ol)), make([]byte, ol)...)
+			g.Label("padn_without_data")
+		} else {
+			od := g.Bytes("hbh_optdata", ol)
+			h.Options = append(h.Options, &protocol.Option{Type: ot, Length: uint8(ol), Data: cp(od)})
+			w = append(append(w, ot, uint8(ol)), od...)
+		}
 		remain -= 2 + ol
 	}
 	return Proto{"HopByHopHeader", h, w}
